@@ -114,6 +114,7 @@ def scenarios():
     from . import scenarios5  # noqa: F401
     from . import scenarios6  # noqa: F401
     from . import scenarios7  # noqa: F401
+    from . import scenarios8  # noqa: F401
     return sc.SCENARIOS
 
 
